@@ -67,4 +67,13 @@ PROPS = {
              r'^reward \S+ (config|swapdenom)', r'^reg \S+ config'],
         assumes=[],
     ),
+    'C18': dict(
+        props_file='Props/C18.v',
+        theorems=['C18_supply_invariant_reachable', 'C18_bsei_preserves', 'C18_stsei_preserves', 'C18_instantiate',
+                  'C18_move_conserves', 'C18_mint_only_minter', 'C18_burn_only_hub', 'C18_allowance_bound'],
+        kernels=[], scenarios=['basic.ops'], profiles=['token'],
+        keys=['tok.', 'm wasm bsei', 'm wasm stsei'],
+        ops=[r'^cw ', r'^inst_bsei', r'^inst_stsei'],
+        assumes=['all token holders are among the 21 named addresses (only those appear in operations)'],
+    ),
 }
